@@ -37,7 +37,9 @@ ASSUMPTIONS = [
     "unitary = (p^(N/2)-1)-th powers for N = 2,4,8,16",
     "sparse operand shapes of fpN_mul_dxs are the ones the pairing line functions produce (source comments), for the "
     "projective-coordinate build: fp6/fp9 b2=0; fp8 b[1][0]=0; fp12 D-type {b00,b10,b11}, otherwise {b00,b01,b11}; "
-    "fp16 {b0,b[1][1]} or {b[0][0],b1}; fp18 {b00,b01,b11}; fp24 {b0,b1} or {b0,b2}; fp48 {b00,b01,b11}; fp54 {b0,b[2][0]}",
+    "fp16 {b0,b[1][1]} or {b[0][0],b1}; fp18 {b00,b01,b11}; fp24 {b0,b1} or {b0,b2}; fp48 {b00,b01,b11}; fp54 {b0,b[2][0]}; "
+    "for the affine build (EP_ADD == BASIC, asan256x): fp12 D-type {b[0][0][0] in Fp, b10, b11}, M-type {b00, b01, b[1][1][0] in Fp}, "
+    "fp16 second form {b[0][0][0][0] in Fp, b1}; fp18/fp48/fp54 not exercised there",
     "fp2_mul_frb(i,j) multiplies by xi^(j(p-1)/6) (i=1, j=1..5) and xi^(p div 4|8|12|24) (i=2, j=1..4), xi = fp2_mul_nor(1); "
     "fp3_mul_frb analogously with p div 6, 9, 18 (comments of relic_fpx_field.c)",
     "compressed (Karabina) form: only the coefficients g2..g5 are significant, except that the unit is represented by 1",
@@ -63,7 +65,9 @@ def parts(tier):
          dict(part="B12_P381", cfg="asan381", shards=5 if q else 6),
          # alternative dispatch (FPX_METHD=BASIC;BASIC;BASIC: the macro-selected fpN mul/sqr/... are the _basic variants;
          # EP add BASIC, so the sparse products, whose operand shapes are narrower there, are not exercised): reduced volume
-         dict(part="BN_P256", cfg="asan256x", shards=2)]
+         dict(part="BN_P256", cfg="asan256x", shards=2),
+         # the sparse products in the (M-type twist, affine curve arithmetic) path: SM9_P256 in the affine build
+         dict(part="SM9_P256-dxs", cfg="asan256x", shards=1)]
     if not q:
         for cfg in sorted(SWEEP):
             P.append(dict(part="sweep-" + cfg, cfg=cfg, shards=4 * len(SWEEP[cfg]) if cfg != "asan638" else 8))
@@ -137,8 +141,15 @@ def path_range(d, path):
     return range(off, off + cur)
 
 
-def dxs_shapes(d, dtype):
-    """allowed non-zero sub-blocks of the sparse operand (list of alternatives), projective-coordinate builds"""
+def dxs_shapes(d, dtype, basic=False):
+    """allowed non-zero sub-blocks of the sparse operand (list of alternatives): the shapes of the line functions of the
+    (twist type, EP_ADD) path the build and the active curve select.  With affine curve arithmetic (EP_ADD == BASIC) one
+    block of the fp12/fp16 line lies in the prime field; fp18/fp48/fp54 are not exercised there."""
+    if basic:
+        return {6: [[(0,), (1,)]], 9: [[(0,), (1,)]], 8: [[(0,), (1, 1)]],
+                12: [[(0, 0, 0), (1, 0), (1, 1)]] if dtype else [[(0, 0), (0, 1), (1, 1, 0)]],
+                16: [[(0,), (1, 1)], [(0, 0, 0, 0), (1,)]],
+                24: [[(0,), (1,)], [(0,), (2,)]]}.get(d)
     return {6: [[(0,), (1,)]], 9: [[(0,), (1,)]], 8: [[(0,), (1, 1)]],
             12: [[(0, 0), (1, 0), (1, 1)]] if dtype else [[(0, 0), (0, 1), (1, 1)]],
             16: [[(0,), (1, 1)], [(0, 0), (1,)]], 18: [[(0, 0), (0, 1), (1, 1)]],
@@ -424,6 +435,10 @@ def run(ctx, part):
     R = RT(ctx.cfg)
     rng = ctx.rng
     E = R.E
+    only = None
+    if part.endswith("-dxs"):
+        part = part[:-4]
+        only = lambda d, s: s in DXS or (s in ("mul", "mul_basic", "mul_lazyr") and d in (6, 12))   # noqa: E731
     if part in PAIRING_PARTS:
         names = [part]
     elif part == "plain256":
@@ -459,12 +474,12 @@ def run(ctx, part):
             continue
         finally:
             ctx.end()
-        run_param(ctx, R, nm, len(names))
+        run_param(ctx, R, nm, len(names), only)
     ctx.note("functions_exercised", sorted(R.fn_seen))
     ctx.note("error_codes_seen", {str(k): v for k, v in R.err_codes.items()})
 
 
-def run_param(ctx, R, pname, nparams):
+def run_param(ctx, R, pname, nparams, only=None):
     rng = ctx.rng
     T = Tower(R, ctx, pname)
     M, F, p = T.M, T.F, T.p
@@ -522,6 +537,8 @@ def run_param(ctx, R, pname, nparams):
                 continue
             if d not in allowed:
                 outside.append(fn)
+                continue
+            if only is not None and not only(d, s):
                 continue
             flist.setdefault(d, []).append(s)
     ctx.note("functions_not_built", sorted(not_built))
@@ -612,6 +629,8 @@ def run_param(ctx, R, pname, nparams):
             n = ctx.n(q, t) // ctx.nshards // nparams
             if ctx.cfg == "asan256x":
                 n = int(ctx.n(q, t) * 0.3) // ctx.nshards
+            if only is not None:
+                n = ctx.n(1500, 20000) if d in (6, 12) else ctx.n(300, 3000)
         fl = flist[d]
         w = [HEAVY.get(s, 1.0) * (3.0 if (s in BIN and BIN[s] == "mul") or (s in UN and UN[s] == "sqr") or s in DXS else 1.0)
              for s in fl]
@@ -885,8 +904,8 @@ class Handlers(object):
 
         # ------------------------------------------------------------ sparse multiplication
         if s in DXS:
-            shapes = dxs_shapes(d, T.dtype)
-            if shapes is None or "basic" in T.ep_add:
+            shapes = dxs_shapes(d, T.dtype, "basic" in T.ep_add)
+            if shapes is None:
                 return
             shape = rng.choice(shapes)
             if alias in (3, 4):
@@ -902,7 +921,8 @@ class Handlers(object):
                 sel = path_range(d, (1, 0) if d == 16 else (2,))
                 if not any(b[i] for i in sel):
                     b[sel[0]] = rng.randrange(1, p)
-            self.tok += ["shape%d" % shapes.index(shape), "a%d" % alias]
+            self.tok += ["shape%d" % shapes.index(shape), "D" if T.dtype else "M",
+                         "affine" if "basic" in T.ep_add else "projective", "a%d" % alias]
             desc["b"] = [hx(x) for x in b]
             if not ctx.begin(key, desc, nontrivial=any(a) and any(b)):
                 return
